@@ -78,6 +78,7 @@ type Opts struct {
 }
 
 type gen struct {
+	lineDirs int
 	r    *rand.Rand
 	o    Opts
 	p    *Package
@@ -193,6 +194,13 @@ func Generate(r *rand.Rand, name, dir, path string, o Opts) *Package {
 			}
 			g.w(f, ")\n")
 			continue
+		}
+		if g.r.Intn(12) == 0 {
+			// a //line directive (sources generated by goyacc, templates, cgo): every position after it is reported
+			// under another file name and line (distinct targets, far apart: no two lines collide); declarations,
+			// their docs and tags keep their meaning
+			g.lineDirs++
+			g.w(f, "//line %s_synth%d.y:%d\n", name, g.lineDirs, 10000*g.lineDirs)
 		}
 		g.typeSpec(f, kinds[g.r.Intn(len(kinds))], false)
 		i++
